@@ -546,6 +546,14 @@ class Ctx:
                 return
             if r == "sat":
                 m = self.model()
+                if not self._model_satisfies_path(m):
+                    # z3 handed back a model that does not satisfy the path condition it was produced for (seen once,
+                    # on a loaded machine, from a restarted copy of the query): decide the batch again, member by
+                    # member, with a fresh solver and no time cap short of the obligation timeout
+                    self.stats["bogus_models"] = self.stats.get("bogus_models", 0) + 1
+                    for c, label, info in pend:
+                        self._decide_fresh(c, label, info)
+                    return
                 rest = []
                 hit = False
                 for c, label, info in pend:
@@ -580,6 +588,35 @@ class Ctx:
             one, pend = pend[:1], pend[1:]
             self._pending = one
             self.flush()
+
+    def _model_satisfies_path(self, m):
+        try:
+            return all(z3.is_true(m.eval(a, model_completion=True)) for a in self.solver.assertions())
+        except z3.Z3Exception:
+            return False
+
+    def _decide_fresh(self, c, label, info):
+        s3 = z3.Solver()
+        s3.set("timeout", self.prove_timeout)
+        s3.add(self.solver.assertions())
+        s3.add(z3.Not(c))
+        t = time.perf_counter()
+        r = str(s3.check())
+        self.stats["solver_s"] += time.perf_counter() - t
+        self.stats["queries"] += 1
+        if r == "unsat":
+            self.stats["discharged"] += 1
+            self.discharged_labels[label] += 1
+            return
+        if r == "sat":
+            m = s3.model()
+            if all(z3.is_true(m.eval(a, model_completion=True)) for a in self.solver.assertions()):
+                self.stats["candidates"] += 1
+                self.candidates.append(dict(label=label, assign=self.current_assignment(m), info=_short(info),
+                                            decisions=len(self.decisions)))
+                return
+        self.stats["unknown_prove"] += 1
+        self.undecided.append(dict(label=label, decisions=len(self.decisions)))
 
     def cover(self, label):
         self.covers[label] += 1
